@@ -130,9 +130,22 @@ def h_views(params, n, kt, vt, mck, inactive, flat, compact):
   """Every selector is a solver decision made concrete by branching; the views and the oracle run natively."""
   from engine.chx import concretize
   spec, dnas = space(params['spec'])
-  n = concretize(n, range(len(dnas)))
-  kt, vt, mck = concretize(kt, range(len(KEY_TYPES))), concretize(vt, range(len(VALUE_TYPES))), concretize(mck, range(len(MCK)))
-  inactive, flat, compact = bool(inactive), bool(flat), bool(compact)
+  fam = params.get('family')
+  if fam == 'dict':
+    # every dictionary view (key type x value type x multi-choice key x inactive) of representative DNAs
+    reps = sorted({0, len(dnas) // 3, (2 * len(dnas)) // 3, len(dnas) - 1})
+    n = reps[concretize(n, range(len(reps)))]
+    kt, vt, mck = concretize(kt, range(len(KEY_TYPES))), concretize(vt, range(len(VALUE_TYPES))), concretize(mck, range(len(MCK)))
+    inactive, flat, compact = bool(inactive), False, False
+  elif fam == 'all':
+    # every DNA of the skeleton: numbers (flat / nested), JSON (verbose / compact), lookups, alignment; default dictionary view
+    n = concretize(n, range(len(dnas)))
+    kt, vt, mck, inactive = 0, 0, 0, False
+    flat, compact = bool(flat), bool(compact)
+  else:
+    n = concretize(n, range(len(dnas)))
+    kt, vt, mck = concretize(kt, range(len(KEY_TYPES))), concretize(vt, range(len(VALUE_TYPES))), concretize(mck, range(len(MCK)))
+    inactive, flat, compact = bool(inactive), bool(flat), bool(compact)
   with untraced():
     return _views_body(params, spec, dnas[n], KEY_TYPES[kt], VALUE_TYPES[vt], MCK[mck], inactive, flat, compact)
 
@@ -198,10 +211,20 @@ def h_chain(params, n, n2, op, rng, warm=False):
   spec, dnas = space(params['spec'])
   ops = params.get('ops') or CHAIN
   name = ops[concretize(op, range(len(ops)))]
-  d = dnas[concretize(n, range(len(dnas)))]
+  # lazily: which input DNA is a solver decision only for operations that read it; recombination takes both parents from
+  # representative members
+  reps = sorted({0, len(dnas) // 3, (2 * len(dnas)) // 3, len(dnas) - 1})
+  if name == 'random':
+    d = dnas[0]
+  elif name.startswith('crossover'):
+    if params.get('parents'):
+      reps = reps[::len(reps) - 1][:params['parents']] if params['parents'] == 2 else reps
+    d = dnas[reps[concretize(n, range(len(reps)))]]
+  else:
+    d = dnas[concretize(n, range(len(dnas)))]
   before_numbers = d.to_numbers()
-  e = dnas[concretize(n2, range(len(dnas)))] if name.startswith('crossover') else None
-  warm = bool(warm)
+  e = dnas[reps[concretize(n2, range(len(reps)))]] if name.startswith('crossover') else None
+  warm = bool(params['warm']) if params.get('warm') is not None else bool(warm)
   try:
    with untraced():       # the operators run natively; every RNG outcome stays a solver decision (SymRandom)
      # the input is a DNA of its own (nothing memoised by an earlier path), optionally used through its lookup API first
@@ -257,22 +280,31 @@ def shards(tier, seed):
   quick = tier == 'quick'
   b = 50 if quick else 600
   out = []
+  va = [('n', 'int'), ('kt', 'int'), ('vt', 'int'), ('mck', 'int'), ('inactive', 'bool'), ('flat', 'bool'), ('compact', 'bool')]
+  ca = [('n', 'int'), ('n2', 'int'), ('op', 'int'), ('rng', 'rng'), ('warm', 'bool')]
   for name in _templates():
-    out.append(dict(name=f'views:{name}', fn='h_views', params=dict(spec=name),
-                    args=[('n', 'int'), ('kt', 'int'), ('vt', 'int'), ('mck', 'int'), ('inactive', 'bool'), ('flat', 'bool'),
-                          ('compact', 'bool')], budget_s=b, per_path_s=30, format_stub=False))
+    for fam in ('dict', 'all'):
+      out.append(dict(name=f'views:{name}:{fam}', fn='h_views', params=dict(spec=name, family=fam), args=va,
+                      budget_s=b * 3, expect_s=50, per_path_s=30, format_stub=False))
+    if not quick:
+      out.append(dict(name=f'views:{name}', fn='h_views', params=dict(spec=name), args=va, budget_s=b, per_path_s=30, format_stub=False))
     if name == 'with_float':
       continue
     for ops in (['next', 'random', 'parse', 'clone', 'json'], ['uniform'], ['swap', 'uniform_swap'],
                 ['crossover_uniform', 'crossover_kpoint']):
-      out.append(dict(name=f'chain:{name}:{"+".join(ops)}', fn='h_chain', params=dict(spec=name, ops=ops),
-                      args=[('n', 'int'), ('n2', 'int'), ('op', 'int'), ('rng', 'rng'), ('warm', 'bool')], budget_s=b, per_path_s=30))
+      mutating = ops[0] in ('uniform', 'swap')
+      for warm in (((True,) if quick else (False, True)) if mutating else (False,)):
+        out.append(dict(name=f'chain:{name}:{"+".join(ops)}' + (':warm' if warm else ''), fn='h_chain',
+                        params=dict(spec=name, ops=ops, warm=warm, parents=2 if quick else 4), args=ca,
+                        budget_s=b * (2 if ops[0].startswith('crossover') else 4), expect_s=80, per_path_s=30))
   return out
 
 
 META = dict(
-    rule='Shard = (views | producing operations, spec skeleton); symbolic: which valid DNA, view parameters '
-         '(key type x value type x multi-choice key x inactive x flat x compact), producing operation, every RNG draw.',
+    rule='Shard = (view family | producing operations, spec skeleton). views:dict = every dictionary view (key type x value '
+         'type x multi-choice key x inactive) of 4 representative DNAs; views:all = every valid DNA x numbers (flat/nested) x '
+         'JSON (verbose/compact) x lookups; chain = producing operation x input DNA (all; recombination: 2 (quick) / 4 '
+         'representative parents each) x every RNG draw, the input used through its lookup API first (warm).',
     bounds=['spec skeletons: named (names, nested conditional, sorted-distinct multi-choice), unnamed, deep (3-level '
             'conditional chain), multi_nested, sorted_multi, with_float', 'all valid DNAs of each skeleton (enumerated once, '
             'untraced); with_float: values {0, 0.5, 1}', 'operations: ' + ', '.join(CHAIN),
